@@ -26,7 +26,9 @@ import (
 
 	v1 "github.com/fatedier/frp/pkg/config/v1"
 	"github.com/fatedier/frp/pkg/msg"
+	netpkg "github.com/fatedier/frp/pkg/util/net"
 	"github.com/fatedier/frp/pkg/util/util"
+	"golang.org/x/net/websocket"
 	"verifharness/hx"
 )
 
@@ -281,6 +283,47 @@ func mutate(g *hx.Gen, v reflect.Value) {
 	}
 }
 
+func wsDial(s *hx.Server) (net.Conn, error) {
+	addr := fmt.Sprintf("%s:%d", s.Addr, s.Port)
+	raw, err := net.DialTimeout("tcp", addr, 2*time.Second)
+	if err != nil {
+		return nil, err
+	}
+	cfg, err := websocket.NewConfig("ws://"+addr+netpkg.FrpWebsocketPath, "http://"+addr)
+	if err != nil {
+		raw.Close()
+		return nil, err
+	}
+	_ = raw.SetDeadline(time.Now().Add(3 * time.Second))
+	ws, err := websocket.NewClient(cfg, raw)
+	if err != nil {
+		raw.Close()
+		return nil, err
+	}
+	_ = raw.SetDeadline(time.Time{})
+	ws.PayloadType = websocket.BinaryFrame
+	return ws, nil
+}
+
+// wsLogin logs in over a fresh websocket connection and reports whether LoginResp arrived in time.
+func wsLogin(s *hx.Server, d time.Duration) (bool, string) {
+	ws, err := wsDial(s)
+	if err != nil {
+		return false, "dial: " + err.Error()
+	}
+	defer ws.Close()
+	ts := time.Now().Unix()
+	if err := msg.WriteMsg(ws, &msg.Login{Version: "0.61.0", PrivilegeKey: util.GetAuthKey(hx.DefaultToken, ts), Timestamp: ts}); err != nil {
+		return false, "write: " + err.Error()
+	}
+	_ = ws.SetReadDeadline(time.Now().Add(d))
+	var resp msg.LoginResp
+	if err := msg.ReadMsgInto(ws, &resp); err != nil {
+		return false, "no LoginResp: " + err.Error()
+	}
+	return resp.Error == "", resp.Error
+}
+
 // watchdog: a fresh login, a tcp proxy, a user connection bridged to an offered work connection.
 func watchdog(s *hx.Server) error {
 	p, resp, err := s.Login(hx.LoginOpts{})
@@ -478,6 +521,23 @@ func runBarrage(cfg *hx.RunCfg) error {
 	}
 	cancel()
 	wg.Wait()
+	// a silent peer on the websocket transport must not delay the login of another websocket client
+	if c.alive() {
+		silent, err1 := wsDial(s)
+		t0 := time.Now()
+		ok, detail := wsLogin(s, 4*time.Second)
+		dt := time.Since(t0)
+		if silent != nil {
+			silent.Close()
+		}
+		if err1 == nil {
+			record("ws-silent-peer", "Login", fmt.Sprintf("login over websocket next to a silent websocket peer: ok=%v after %v %s", ok, dt.Round(time.Millisecond), detail), c.alive(), ok)
+			if !ok {
+				fails = append(fails, map[string]any{"key": "frps-stalled:websocket-silent-peer", "what": "a silent unauthenticated websocket peer delays other websocket clients: login got no answer within 4 s (" + detail + ")",
+					"case": "dial ws (silent); dial ws; Login"})
+			}
+		}
+	}
 	time.Sleep(100 * time.Millisecond)
 	crashed("background-traffic", "concurrent xtcp/stcp/group registration, closure, visitor pre-checks")
 	cfg.St["cases"] = len(cf.Cases)
